@@ -4,6 +4,7 @@ CONSTANTS
   MaxWordDecrypt = 3
   MaxWordPort = 4
   MaxWordOpen = 3
+  MaxWordField = 2
   MaxWordRec = 4
-INVARIANTS LawTotal LawHex LawPort
+INVARIANTS LawTotal LawHex LawPort LawFamilies
 CHECK_DEADLOCK FALSE
